@@ -142,6 +142,7 @@ package web
 //@   ensures[C13] gate: reqId(r).authenticated ==> #exchangeOK && #verifyOK && reqId(r).userName != ""
 //@   site SaveSessionIdentity requires[C13] onlyVerified: #exchangeOK && #verifyOK && userName != "" && #httpErrors == 0 && reqId(r).userName == userName
 //@   site (*github.com/coreos/go-oidc/v3/oidc.IDTokenVerifier).Verify requires[C13] afterExchange: #exchangeOK && #httpErrors == 0
+//@   site (*golang.org/x/oauth2.Config).Exchange requires[C13] issuedState: #cacheFound && #cacheFoundIn == h.stateStore.cache && #cacheFoundKey == state && #httpErrors == 0
 //@   nopanic[C10]
 
 // ---------------------------------------------------------------- connection files (C12) and token info (C15)
